@@ -443,6 +443,7 @@ package sipsp
 
 //@ func IP4Prefix(buf, dst) (ok, n, err)
 //@   requires bufOK(buf) && (len(dst) == 0 || blockSep(buf, dst))
+//@   split len(dst) == 0
 //@   modifies dst[*]
 //@   loop 0 "for ; o < len(buf); o++"
 //@     invariant 0 <= o && o <= len(buf) && 0 <= pos && pos <= 3 && 0 <= digits && digits <= 3
@@ -468,6 +469,7 @@ package sipsp
 
 //@ func ContainsIP4(buf, dst) (ok, o, nxt)
 //@   requires bufOK(buf) && (len(dst) == 0 || blockSep(buf, dst))
+//@   split len(dst) == 0
 //@   modifies dst[*]
 //@   loop 0 "for i := 0; i < len(buf);"
 //@     invariant 0 <= i && i <= len(buf)
